@@ -12,12 +12,6 @@ import FcProps.KTiePS
 namespace Fc
 open Rs Src
 
-/-- the model outcome a returned `Poll<Result<Vec<T>, E>>` stands for -/
-def outcomeOfTryJoin : Rs.Poll (Rs.Result (List Nat)) → Outcome
-  | .pending => .pending
-  | .ready (.ok vs) => .ready true vs
-  | .ready (.err e) => .ready false [e]
-
 namespace TieTryJoinV
 open TryJoinV
 
@@ -35,14 +29,6 @@ structure WfT (g : TryJoin) : Prop where
   pc : g.roleCount = ((List.range g.roleKids.len).filter (fun i => g.roleStates.get i = PS.PollState.pending)).length
   rs : ∀ i, i < g.roleKids.len → (g.roleStates.get i = PS.PollState.pending ∨
         (g.roleStates.get i = PS.PollState.ready ∧ ∃ v, g.roleItems.get i = some v))
-
-/-- what is compared after a poll that COMPLETED with `Ok`: everything of `jcore` except the output slots (`OutputVec::take`
-    moved the values out to the caller and leaves the slots empty, the model's `finish` keeps its copies), and the state
-    table on the slots of the combinator only (`iter_mut().for_each(set_none)` rewrites the `len` slots that exist, the
-    model's `finish` writes `fun _ => .none`) -/
-def jcoreDone (n : Nat) (a m : Eng Fix) : Prop :=
-  a.w.mode = m.w.mode ∧ a.w.cap = m.w.cap ∧ a.w.bits = m.w.bits ∧ a.w.count = m.w.count ∧ a.w.parent = m.w.parent ∧
-  a.s.n = m.s.n ∧ (∀ i, i < n → a.s.st i = m.s.st i) ∧ a.s.cnt = m.s.cnt ∧ a.s.off = m.s.off ∧ a.s.dead = m.s.dead
 
 /- STATEMENT FIXED (W7): the clause `jcore (absT g' b) = jcore (Eng.poll tryJoinSlice (absT g b) w)` was stated for every
    return value; it is false when the poll completes with `Ready(Ok(_))` (see `jcoreDone` and the counterexample in
